@@ -38,7 +38,7 @@ static std::vector<std::vector<std::array<const void*, 4>>> g_pairs(64);
 static void on_pair(const cell* c1, const node* n, const cell* c2, const face* f) { int t = omp_get_thread_num(); if (t >= 0 && t < 64) g_pairs[t].push_back({c1, n, c2, f}); }
 
 // ---- tissue generator (dimensionless units, cell size ~1) ---------------------------------------------------------------
-struct Tissue { std::vector<gen::TriMesh> meshes; std::vector<int> cls; std::vector<int> type_of; std::vector<cell_type_parameters> types; global_simulation_parameters P; bool has_epi_epi = false, uniform_strengths = true; std::string family; double offset = 0; };
+struct Tissue { std::vector<gen::TriMesh> meshes; std::vector<int> cls; std::vector<int> type_of; std::vector<cell_type_parameters> types; global_simulation_parameters P; bool has_epi_epi = false, uniform_strengths = true; std::string family; double offset = 0; std::vector<char> premerge; };
 
 static cell_type_parameters ctype(int cls, Rng& g, bool same_strengths) {
     cell_type_parameters c = *gen::default_cell_type(cls == 0 ? 3 : 1, (short)cls); c.name_ = "c" + std::to_string(cls);
@@ -74,12 +74,19 @@ static Tissue make_tissue(Rng& g, int max_cells, bool no_epi_pairs = false, bool
     std::map<int, int> idx; for (int c : t.cls) if (!idx.count(c)) { idx[c] = (int)t.types.size(); t.types.push_back(ctype(c, g, t.uniform_strengths)); }
     for (int c : t.cls) t.type_of.push_back(idx[c]);
     int nepi = 0; for (int c : t.cls) if (c == 0) nepi++; t.has_epi_epi = nepi >= 2;
+    // what the refinement phase of the same iteration leaves behind: cells with unused node / face slots in the middle of their lists
+    t.premerge.assign(t.meshes.size(), 0); if (g.coin(0.4)) for (auto& pm : t.premerge) pm = g.coin(0.6);
     return t;
 }
 
 static std::vector<cell_ptr> build(const Tissue& t, std::vector<cell_type_param_ptr>* keep = nullptr) {
     std::vector<cell_type_param_ptr> tp; for (auto& c : t.types) tp.push_back(std::make_shared<cell_type_parameters>(c));
     std::vector<cell_ptr> L; for (size_t k = 0; k < t.meshes.size(); k++) { cell_ptr c = gen::make_cell_of_class(t.cls[k], t.meshes[k], (unsigned)k, tp[t.type_of[k]]); c->set_local_id((unsigned)k); L.push_back(c); }
+    // collapse the shortest edges of the chosen cells with the repository's refiner (as solver::run_iteration does right before the contact phase,
+    // without compaction): unused slots remain in the node and face lists
+    for (size_t k = 0; k < L.size(); k++) if (k < t.premerge.size() && t.premerge[k]) { const auto& m = t.meshes[k]; double emin = 1e300;
+        for (auto& tr : m.T) for (int e = 0; e < 3; e++) { const auto &a = m.P[tr[e]], &b = m.P[tr[(e + 1) % 3]]; emin = std::min(emin, std::sqrt((a[0] - b[0]) * (a[0] - b[0]) + (a[1] - b[1]) * (a[1] - b[1]) + (a[2] - b[2]) * (a[2] - b[2]))); }
+        local_mesh_refiner lmr(emin * 1.1, 1e9); lmr.refine_mesh(L[k]); L[k]->update_all_face_normals_and_areas(); }
     // what the previous iteration leaves behind: node normals and curvatures from the force phase; then empty accumulators
     for (auto& c : L) { c->apply_internal_forces(0.0); for (node& n : cell_tester::nodes(*c)) if (n.is_used()) { n.set_force(vec3(0, 0, 0));
 #if DYNAMIC_MODEL_INDEX == 0
@@ -227,6 +234,7 @@ static std::string tissue_case(const Args& a, long i) {
             if (b2.missing) c.viol("c06.pair_within_cutoff_not_presented:model_object_reused", b2.msg + " (" + std::to_string(b2.missing) + " such pairs) in the second evaluation made with the same contact model object on a re-oriented tissue");
         }
     }
+    { long freeslots = 0; for (size_t k = 0; k + 1 < A.size(); k++) for (const face& f : cell_tester::faces(*A[k])) if (!f.is_used()) freeslots++; if (freeslots) c.obs.i("unused_face_slots_before_last_cell", freeslots); }
     c.nontrivial = within > 0; c.sig = hash_combine(hash_combine((uint64_t)within, (uint64_t)presented), hash_combine((uint64_t)forced, hash_double((double)sabs)));
     c.obs.s("family", t.family).i("cells", (long)A.size()).i("pairs_within_cutoff", within).i("pairs_gated_out", gated_out).i("pairs_presented", (long)presented).i("nodes_with_force", forced).i("couplings", couplings).b("all_pairs_comparison", didB).d("all_pairs_maxdiff_over_fmax", fmax > 0 ? (double)(maxdiff / fmax) : 0.0)
         .i("repeats", repeats_done).b("model_reused", did_reuse).i("reuse_pairs_within_cutoff", reuse_within).b("second_phase", did_phase2).i("second_phase_couplings", phase2_couplings).d("net_over_sumabs", sabs > 0 ? (double)(sum.norm() / sabs) : 0.0).d("lmin", t.P.min_edge_len_).d("cutoff_adh", t.P.contact_cutoff_adhesion_).d("cutoff_rep", t.P.contact_cutoff_repulsion_).d("offset", t.offset).b("epi_epi", t.has_epi_epi).i("threads", a.threads);
@@ -300,7 +308,7 @@ static int cmd_contact(const Args& a) {
         auto str = [&](const std::string& k) -> std::string { size_t p = L.find("\"" + k + "\":\""); if (p == std::string::npos) return ""; size_t s0 = p + k.size() + 4; return L.substr(s0, L.find('"', s0) - s0); };
         auto flag = [&](const std::string& k) -> bool { size_t p = L.find("\"" + k + "\":"); return p != std::string::npos && L.compare(p + k.size() + 3, 4, "true") == 0; };
         if (L.find("\"v\":\"skip\"") != std::string::npos) { agg.skipped++; continue; }
-        if (mode == "tissue") { for (const char* k : {"pairs_within_cutoff", "pairs_gated_out", "pairs_presented", "nodes_with_force", "couplings"}) agg.bin(k, num(k)); agg.bin("family:" + str("family")); agg.bin("repeated_runs", num("repeats")); if (flag("second_phase")) agg.bin("second_phase_histories"); if (flag("all_pairs_comparison")) agg.bin("all_pairs_comparisons"); if (flag("epi_epi")) agg.bin("tissues_with_epithelial_pairs"); if (num("cells") == 1) agg.bin("single_cell_tissues");
+        if (mode == "tissue") { for (const char* k : {"pairs_within_cutoff", "pairs_gated_out", "pairs_presented", "nodes_with_force", "couplings"}) agg.bin(k, num(k)); agg.bin("family:" + str("family")); agg.bin("repeated_runs", num("repeats")); if (flag("second_phase")) agg.bin("second_phase_histories"); if (flag("all_pairs_comparison")) agg.bin("all_pairs_comparisons"); if (flag("epi_epi")) agg.bin("tissues_with_epithelial_pairs"); if (num("cells") == 1) agg.bin("single_cell_tissues"); if (num("unused_face_slots_before_last_cell") > 0) agg.bin("tissues_with_unused_slots_before_last_cell"); if (flag("model_reused")) agg.bin("model_object_reused");
             size_t p = L.find("\"all_pairs_maxdiff_over_fmax\":"); if (p != std::string::npos) agg.maxi("all_pairs_maxdiff_over_fmax", atof(L.c_str() + p + 30)); p = L.find("\"net_over_sumabs\":"); if (p != std::string::npos) agg.maxi("net_force_over_sumabs", atof(L.c_str() + p + 18)); }
         else { agg.bin("pair:" + str("pair")); if (flag("forbidden_side")) agg.bin("forbidden_side_cases"); if (flag("coupled")) agg.bin("coupled_cases"); agg.bin("region:" + std::to_string(num("region"))); }
         if (flag("nt")) { agg.nontrivial++; size_t p = L.find("\"sig\":\""); if (p != std::string::npos) agg.sigs[strtoull(L.substr(p + 7, 16).c_str(), nullptr, 16)] = 1; if (mode != "tissue") agg.bin("pair_with_force_or_coupling:" + str("pair")); }
